@@ -83,6 +83,19 @@ def resume_cfg(cfg):
             r.case(explorer.digest([cfg, "fault", k]), nontrivial=bool(F.sink))
             if F.sink and F.sink[-1][1] not in payloads:
                 payloads.append(F.sink[-1][1])
+    # the live dictionary the callback received, used after a fault at every crash point
+    for k in range(0, R.n_calls, 1 if tier == "thorough" else 2):
+        F = rh.run(cfg, fault_at=k)
+        if not F.live:
+            continue
+        rr = rh.run(cfg, resume_from=F.live[-1])
+        case = {"kind": "resume", "cfg": cfg, "crash_point": k, "route": "live-dict"}
+        r.case(explorer.digest([cfg, "live", k]), nontrivial=True)
+        if rr.exception is not None:
+            r.violation(f"C18/resume-raises/{rr.exception[0]}", rr.exception, case)
+            continue
+        for sig, detail in check_history(to_rec(rr), resumed=True) + extra_series(rr, cfg["sampler"]):
+            r.violation(sig, detail, case)
     for j, payload in enumerate(payloads):
         for route in ("bytes", "dict"):
             src = payload if route == "bytes" else pickle.loads(payload)
